@@ -124,7 +124,12 @@ func (s *rawSvc) OpenTunnel(stream tunnelpb.TunnelService_OpenTunnelServer) erro
 	done := make(chan error, 1)
 	ts.rawS = &rawServerEnd{
 		send:   func(m *tunnelpb.ServerToClient) error { return stream.Send(m) },
-		finish: func(err error) { done <- err },
+		finish: func(err error) {
+			select {
+			case done <- err:
+			default:
+			}
+		},
 	}
 	go func() {
 		for {
@@ -156,7 +161,12 @@ func (s *rawSvc) OpenReverseTunnel(stream tunnelpb.TunnelService_OpenReverseTunn
 	done := make(chan error, 1)
 	ts.rawC = &rawClientEnd{
 		send:   func(m *tunnelpb.ClientToServer) error { return stream.Send(m) },
-		finish: func(err error) { done <- err },
+		finish: func(err error) {
+			select {
+			case done <- err:
+			default:
+			}
+		},
 	}
 	go func() {
 		for {
@@ -873,11 +883,7 @@ func (w *World) Do(line string) {
 		if op == "ds" {
 			p, dir = w.s2c(ts), "s2c"
 		}
-		what := p.release()
-		if what == "" {
-			what = "none"
-		}
-		w.logf("deliver dir=%s t=%d what=%s", dir, ts.n, what)
+		p.release(func(what string) { w.logf("deliver dir=%s t=%d what=%s", dir, ts.n, what) })
 	case "fail":
 		w.logf("stim kind=fail t=%d", atoi(m["t"]))
 		if ts := w.tunnel(m); ts != nil && ts.link != nil {
